@@ -4,6 +4,7 @@
 namespace sim {
 
 TextPool g_pool;
+int g_pseudo_bias = 0;      // generator hint: the run is about the pseudo-glyph map, put its characters into most texts
 
 static void decode_utf8(const Bytes &b, std::vector<u32> &out) {
     std::vector<size_t> base; Bytes z = b; z.push_back(0);
@@ -164,7 +165,7 @@ std::vector<u32> gen_text(Rng &r, const std::string &font, size_t maxlen, bool a
             t.insert(t.begin() + long(pos), it);
         }
     }
-    if (!in.pseudo.empty() && r.chance(1, 5)) { unsigned n = 1 + r.below(3); for (unsigned q = 0; q < n; ++q) t.insert(t.begin() + long(r.below(u32(t.size() + 1))), r.pick(in.pseudo)); }
+    if (!in.pseudo.empty() && (g_pseudo_bias ? r.chance(4, 5) : r.chance(1, 5))) { unsigned n = 1 + r.below(3); for (unsigned q = 0; q < n; ++q) t.insert(t.begin() + long(r.below(u32(t.size() + 1))), r.pick(in.pseudo)); }
     if (adversarial && r.chance(1, 8)) t.push_back(ILL | ILL_TAIL | r.below(0x400000));
     for (auto &c : t) c = sanitize_item(c);
     return t;
@@ -291,6 +292,31 @@ Fault gen_pseudo_fault(Rng &r, const FontImage &fi) {
         size_t src = g.lo + 8 + 6 * size_t(i), dst = g.lo + 8 + 6 * size_t(j);
         for (int q = 0; q < 4; ++q) { f.a.push_back(i64(dst + size_t(q))); f.a.push_back(t[src + size_t(q)]); }
         break;
+    }
+    return f;
+}
+
+// GIDROT: a format-4 cmap segment (the one holding a common character of the font) re-based so that its characters map
+// to glyph ids at and above `target` (e.g. beyond numGlyphs): accepted fonts whose slots carry out-of-range gids
+Fault gen_gid_fault(Rng &r, const FontImage &fi, const std::vector<u32> &cps) {
+    Fault f; f.kind = "SETBYTES"; f.tag = "cmap"; f.nth = -1;
+    auto it = fi.tables.find(mktag("cmap")); if (it == fi.tables.end() || cps.empty()) return f;
+    const Bytes &t = it->second; if (t.size() < 4) return f;
+    unsigned n = be16(&t[2]);
+    for (unsigned i = 0; i < n && 4 + 8 * size_t(i) + 8 <= t.size(); ++i) {
+        size_t so = be32(&t[4 + 8 * i + 4]); if (so + 16 > t.size() || be16(&t[so]) != 4) continue;
+        size_t sx2 = be16(&t[so + 6]), ends = so + 14, starts = ends + sx2 + 2, idd = starts + sx2, iro = idd + sx2;
+        if (iro + sx2 > t.size()) continue;
+        for (int tries = 0; tries < 8; ++tries) {
+            u32 c = r.pick(cps); if (c > 0xFFFF) continue;
+            for (size_t k = 0; k + 1 < sx2; k += 2) if (be16(&t[starts + k]) <= c && c <= be16(&t[ends + k])) {
+                static const u32 targets[] = {0xFFF0, 0xFFFF, 0x8000, 0x7FFF}; u32 target = r.chance(1, 2) ? targets[r.below(4)] : 0;
+                if (!target) { auto mx = fi.tables.find(mktag("maxp")); u32 ng = mx != fi.tables.end() && mx->second.size() >= 6 ? be16(&mx->second[4]) : 100; target = ng + r.below(3) - 1; }
+                u32 delta = (target - be16(&t[starts + k])) & 0xFFFF;
+                f.a = {i64(idd + k), i64(delta >> 8), i64(idd + k + 1), i64(delta & 0xFF), i64(iro + k), 0, i64(iro + k + 1), 0};
+                return f;
+            }
+        }
     }
     return f;
 }
